@@ -42,6 +42,24 @@ theorem drop_plan_index (n : Nat) (p : Int) (fns : List Int) (i : Nat) :
   rw [dropPlanFrom_getElem]
   simp only [Nat.zero_add]
 
+/-- the plain form `FAKE_DROP n` (period 1): exactly the NEXT `n` bursts of the stream are suppressed,
+whatever their frame numbers -/
+theorem drop_plan_period_one (n : Nat) (fns : List Int) (i : Nat) :
+    (dropPlan n 1 fns)[i]? = some true ↔ i < fns.length ∧ i < n := by
+  rw [drop_plan_index]
+  have hall : ∀ l : List Int, l.countP (fun f => decide ((1 : Int) ∣ f)) = l.length := by
+    intro l
+    rw [List.countP_eq_length]
+    intro a _
+    exact decide_eq_true (Int.one_dvd a)
+  rw [hall, List.length_take]
+  constructor
+  · rintro ⟨fn, hget, _, hc⟩
+    have hi : i < fns.length := (List.getElem?_eq_some_iff.mp hget).1
+    exact ⟨hi, by omega⟩
+  · rintro ⟨hi, hn⟩
+    exact ⟨fns[i], List.getElem?_eq_getElem hi, Int.one_dvd _, by omega⟩
+
 /-- one decision per burst; `min n (#multiples of p)` bursts are suppressed in total -/
 theorem drop_plan_count (n : Nat) (p : Int) (fns : List Int) :
     (dropPlan n p fns).length = fns.length ∧
